@@ -10,6 +10,7 @@
    4 lp       [4; m; e; x..] (pad = m * 2^-e) -> lpad :: enc_zlist (padded) ++ enc_zlist (cropped)
    5 savgol   [5; window; polynom; n; x..; y..] over Q -> 0 :: code | 1 :: n :: (floor v; floor (frac v * 2^40)) x n
    8 stack    [8; ntr; ns; word..; data..] integer data, default fcn_agg=np.nanmean: truncated means
+   9 svd      [9; nc; rank (0 = None); collection..] -> groups (rank; size; indices) and the scatter result
    6 traj     [6; nc; x..; y..] -> nrows :: ncols :: enc_zlist entries ++ enc_zlist trcount *)
 From Coq Require Import ZArith List Bool QArith Qreduction.
 From IBL.lib Require Import PyInt RunLib.
@@ -67,6 +68,18 @@ Definition run_stack_int (l : list Z) : list Z :=
       let data := chunks_of (Z.to_nat ntr) (Z.to_nat ns) (skipn (Z.to_nat ntr) r) in
       let '(st, fold) := stack_int_mean (Z.to_nat ns) data word in
       Z.of_nat (length st) :: concat st ++ fold
+  | _ => [-999]
+  end.
+
+(* svd_denoise_npx grouping: [nc; rank; collection..] -> ngroups :: (rank_g; size; indices..) per group
+   ++ enc_zlist (svd_npx with the identity as _svd_denoise applied to the row numbers) *)
+Definition run_svd (l : list Z) : list Z :=
+  match l with
+  | nc :: rank :: coll0 =>
+      let coll := firstn (Z.to_nat nc) coll0 in
+      let gs := svd_groups coll rank in
+      Z.of_nat (length gs) :: flat_map (fun g => snd g :: enc_zlist (fst g)) gs
+      ++ enc_zlist (svd_npx (-1) (fun _ rows => rows) (zrange (length coll)) coll rank)
   | _ => [-999]
   end.
 
@@ -167,6 +180,7 @@ Definition run (inp : list Z) : list Z :=
   | 5 :: r => run_savgol r
   | 6 :: r => run_traj r
   | 8 :: r => run_stack_int r
+  | 9 :: r => run_svd r
   | _ => [-999]
   end.
 
